@@ -336,6 +336,15 @@ def run_case(case, acc):
                             anc.add(cur)
                     if not set(got) <= anc:
                         viols.append((f"{name}_wrong:midwalk_vanish", ctx + f" got={got} ancestors before/after={sorted(anc)}"))
+                    elif name == "parents":
+                        # every ancestor below the one that went away was there the whole time: the chain holds them all
+                        chain_b = ref_parents(before, caller, min(before))
+                        if chain_b is not None:
+                            d = chain_b.index(victim) if victim in chain_b else len(chain_b)
+                            acc.count("upward_chains_checked_below_the_vanished_ancestor")
+                            if got[:d] != chain_b[:d]:
+                                viols.append(("parents_wrong:midwalk_vanish:ancestor_below_the_vanished_one_missing",
+                                              ctx + f" got={got} chain before={chain_b} (victim {victim})"))
                 for p in list(t.procs):
                     t.procs.pop(p)
                 for pid in sorted(procs):
